@@ -45,7 +45,7 @@ func (H) Tune(prop string, plan any, cfg *simrt.Config) {
 // FSPlan is one C17 workload case; all its crash points and error points are enumerated.
 type FSPlan struct {
 	Prim           string `json:"prim"` // writefile tempfile symlink createatomic copyatomic replaceatomic fstreeput
-	Dest           int    `json:"dest"` // 0 absent, 1 present, 2 present with other mode
+	Dest           int    `json:"dest"` // 0 absent, 1 present, 2 present with other mode, 3 present read-only, 4 a symbolic link to a file with the old content
 	OldSize        int    `json:"old_size"`
 	NewSize        int    `json:"new_size"`
 	Explicit       bool   `json:"explicit_tmp,omitempty"` // caller-specified temp dir
@@ -74,7 +74,7 @@ func (H) Generate(prop string, rng *rand.Rand, tier string) any {
 	if p.Prim == "fetch" {
 		n := 1 + rng.IntN(3)
 		for i := 0; i < n; i++ {
-			p.Net = append(p.Net, rng.IntN(6))
+			p.Net = append(p.Net, rng.IntN(8))
 		}
 		if rng.IntN(2) == 0 {
 			p.Net = append(p.Net, 0)
@@ -97,6 +97,12 @@ func (H) Generate(prop string, rng *rand.Rand, tier string) any {
 		}
 		if (p.Dest == 2 && rng.IntN(2) == 0) || (p.Dest != 0 && p.Mode == 0 && rng.IntN(2) == 0) {
 			p.Dest = 3 // present and read-only (with no mode requested the replacement takes over the destination's mode)
+		}
+	}
+	switch p.Prim {
+	case "writefile", "tempfile", "createatomic", "copyatomic", "replaceatomic":
+		if p.Dest == 1 && rng.IntN(3) == 0 {
+			p.Dest = 4
 		}
 	}
 	if tier == "thorough" && rng.IntN(6) == 0 {
@@ -296,6 +302,10 @@ func (H) Execute(prop string, plan any, rc *simkit.RunCtx) {
 			writeOld(p, e, oldData, 0o600)
 		case 3:
 			writeOld(p, e, oldData, 0o444)
+		case 4:
+			// the destination path is a symbolic link (readers open it and see the old content)
+			_ = os.WriteFile(e.dest+".target", oldData, 0o644)
+			_ = os.Symlink(filepath.Base(e.dest)+".target", e.dest)
 		}
 		if p.BadTmp {
 			_ = os.RemoveAll(e.exp)
@@ -881,6 +891,7 @@ func strayFiles(p *FSPlan, e *fsEnv) string {
 		rel, _ := filepath.Rel(e.base, path)
 		switch {
 		case path == e.dest, rel == "outside/sentinel", rel == "outside/source.bin":
+		case p.Dest == 4 && path == e.dest+".target":
 		case strings.HasPrefix(path, e.dest+"/"):
 		case strings.HasPrefix(rel, "root/tmp/"), rel == "root/res_v1-0-0.bin.gz", rel == "root/pkg_v1-0-0.zip":
 		case strings.HasPrefix(path, e.tmp+"/"), strings.HasPrefix(path, e.exp+"/"):
